@@ -83,7 +83,7 @@ SITE_ENTRY = {
     "typelib.marshals.api.marshaller": "marshaller",
     "typelib.unmarshals.api.unmarshaller": "unmarshaller",
     "typelib.codecs.codec": "codec",
-    "typelib.graph.static_order": "staticOrder",
+    "typelib.graph._static_order": "staticOrder",
     "typelib.py.inspection.cached_type_hints": "cachedTypeHints",
     "typelib.py.inspection.cached_signature": "cachedSignature",
     "typelib.py.inspection.safe_get_params": "cachedTypeHints",
@@ -570,7 +570,7 @@ TYPE_GROUPS = [
 ]
 ROUTINE_CALLS = [
     ("probe(typelib.unmarshaller(K))", "unmarshaller", True), ("probe(typelib.marshaller(K))", "marshaller", True),
-    ("probe_codec(typelib.codec(K))", "codec", True), ("graph.static_order(K)", "staticOrder", False),
+    ("probe_codec(typelib.codec(K))", "codec", True), ("graph._static_order(K)", "staticOrder", False),
     ("typelib.unmarshal(K, '5')", "unmarshaller", True), ("typelib.marshal('5', t=K)", "marshaller", True),
     ("typelib.unmarshal(K, ['5', 5])", "unmarshaller", True), ("typelib.unmarshal(K, {'a': '5', 'x': '7'})", "unmarshaller", True),
     ("typelib.encode(5, t=K)", "marshaller", True), ("typelib.decode(K, b'\"5\"')", "unmarshaller", True),
@@ -817,7 +817,7 @@ def _internal_child(_job):
                 except Exception:  # noqa: BLE001
                     pass
         lst2 = graph.static_order(T)
-        if lst2 is not lst or describe(lst2) != snap:
+        if describe(lst2) != snap:       # (identity is not demanded: since dd76572 every caller gets a list of its own)
             out["internal_mutation"].append(["static_order", repr(T), snap, describe(lst2)])
         if hints is not None and (inspection.cached_type_hints(T) is not hints or describe(hints) != hsnap):
             out["internal_mutation"].append(["cached_type_hints", repr(T), hsnap, describe(hints)])
@@ -825,6 +825,8 @@ def _internal_child(_job):
     T = list[DC]
     lst = graph.static_order(T)
     ids = {id(lst), id(inspection.cached_type_hints(DC))}
+    if hasattr(graph, "_static_order"):
+        ids.add(id(graph._static_order(T)))
     for name, obj in (("marshaller", typelib.marshaller(T)), ("unmarshaller", typelib.unmarshaller(T)), ("codec", typelib.codec(T))):
         seen, todo = set(), [obj]
         while todo and len(seen) < 5000:
@@ -1611,7 +1613,11 @@ def explore(ctx):
     for p in internal["public_paths"]:
         res.failures.append({"what": f"a cached mutable object is handed out: {p}", "input": {"path": p}})
     res.count("internal:static_order/cached_type_hints-unchanged-by-callers", 1 if not internal["internal_mutation"] else 0)
-    # outside the property (graph.static_order is not an operation of C12): recorded, never an alarm
+    # graph.static_order is not an operation of C12's alphabet, but handing out the memoised list let a caller corrupt every
+    # later routine (repaired by dd76572): a recurrence is reported
+    if internal.get("static_order_direct_mutation_changes_routines"):
+        res.failures.append({"what": "graph.static_order(dict[str, int]).clear() changes the routines built afterwards: the memoised "
+                                     "node list is handed out by reference", "input": {"site": "static_order", "T": "dict[str, int]"}})
     res.count("outside-property:graph.static_order-returns-its-cached-list:" + str(internal.get("static_order_returns_cached_list")))
     res.count("outside-property:clearing-that-list-changes-later-routines:"
               + str(internal.get("static_order_direct_mutation_changes_routines")))
